@@ -268,7 +268,7 @@ class Ctx:
                 return rejs, 0, 0
 
     # ---------- diagnostics: which WellFormed clause is false on the topology of an event ----------
-    def diag_topo(self, event_line):
+    def diag_topo(self, event_line, beh_text=""):
         if '"topos"' not in event_line or '"slot"' not in event_line:
             return ""
         d = self.path("diag-%d" % len(os.listdir(self.dir)))
@@ -286,10 +286,22 @@ class Ctx:
             if '"e":"xml_import"' in event_line:
                 open(os.path.join(d, "DiagXml.cfg"), "w").write("INIT Init\nNEXT Next\n")
                 cmd2 = cmd[:-3] + ["-config", "DiagXml.cfg", "DiagXml.tla"]
-                rc2, out2 = run(cmd2, cwd=d, timeout=600, env={"EVENT": os.path.join(d, "event.ndjson")})
-                m2 = re.search(r'<<"EQUIVDIFF", (.*)>>', out2)
+                # tell the diagnostic whether the imported document was a v2-format export (export flags of the same path in the behaviour)
+                v2 = "0"
+                mp = re.search(r'"path":"([^"]*)"', event_line)
+                if mp:
+                    for bl in (beh_text or "").splitlines():
+                        w = bl.split()
+                        if len(w) >= 5 and w[0] == "xml_export" and os.path.basename(w[3]) == os.path.basename(mp.group(1)) and w[4].isdigit():
+                            v2 = "1" if int(w[4]) & 2 else "0"
+                rc2, out2 = run(cmd2, cwd=d, timeout=600, env={"EVENT": os.path.join(d, "event.ndjson"), "DOCV2": v2})
+                flat = re.sub(r"\s+", " ", out2).replace("<< ", "<<").replace(" >>", ">>")
+                m2 = re.search(r'<<"EQUIVDIFF", (<<.*?>>)>>', flat)
                 if m2:
                     extra = " equiv_diff(object fields, object types, top-level fields)=" + m2.group(1)
+                m3 = re.search(r'<<"MEMCCSONLY", (TRUE|FALSE)>>', flat)
+                if m3:
+                    extra += " only_moved_memory_child_complete_cpuset=" + m3.group(1)
             m = re.search(r'<<"ALLBAD", (\{.*?\})>>', out)
             f = re.search(r'<<"FIRSTBAD", "(.*?)">>', out)
             if m or f:
@@ -315,7 +327,7 @@ class Ctx:
                 log("NOTE: rejection did not repeat:", r["line"][:300])
                 continue
             r2 = again[0]
-            dg = self.diag_topo(r2["line"])
+            dg = self.diag_topo(r2["line"], text)
             if dg:
                 r2["why"] = (r2.get("why", "") + " " + dg).strip()
             hit = match_known(kf, text, r2["line"] + " #" + r2.get("why", ""))
@@ -380,6 +392,11 @@ def parse_tlc_stats(out):
     if m:
         st["generated"] = int(m.group(1).replace(",", ""))
         st["distinct"] = int(m.group(2).replace(",", ""))
+    if not m:
+        # simulation mode reports generated states only
+        ms = re.search(r"The number of states generated: (\d[\d,]*)", out)
+        if ms:
+            st["generated"] = st["distinct"] = int(ms.group(1).replace(",", ""))
     m = re.search(r"depth of the complete state graph search is (\d+)", out)
     if m:
         st["depth"] = int(m.group(1))
